@@ -371,6 +371,7 @@ def _annotated_converter(ty: IntoConverter, args: t.Sequence[t.Any], *,
                 conv = Condition.all(*conditions)._converter(conv, handlers=handlers)
             else:
                 conv = conditions[0]._converter(conv, handlers=handlers)
+            conditions = []
 
         conv = arg._converter(conv, handlers=handlers)
 
